@@ -31,7 +31,7 @@ pub fn validate_tokens(
     let rc = RefChars {
         def: &rd.spec.chardef,
     };
-    let space_bit = rc.space_idx().map(|i| 1u32 << i);
+    let space_bit = rc.space_idx().map(crate::refmodel::cat_bit);
     let gap_ok = |from: usize, to: usize| -> Result<(), String> {
         if from == to {
             return Ok(());
